@@ -96,7 +96,9 @@ C06_SilentUntilDeadlineClose(r) == r.closed /\ r.lateBytes = 0
 \* segment, the header in two pieces, or everything separately -- a well-formed client is served in all cases
 C08_HeaderSegmentationIrrelevant(r) == \A i \in 1..Len(r.results) : r.results[i].outcome = "served"
 
-Names(fam) == CASE fam = "C15" /\ Prop = "C10" -> {"C10_RecordsEffectiveAddress"} [] fam = "C15" /\ Prop = "C02" -> {"C02_BoundToEffectiveAddress"}
+Names(fam) == CASE fam = "C15" /\ Prop = "C04" -> {}      \* C04 only looks at the final record: did a connection task panic?
+                [] fam = "panicked" -> {"L_NoPanicInConnectionTasks"}   \* the record exists only if at least one did
+                [] fam = "C15" /\ Prop = "C10" -> {"C10_RecordsEffectiveAddress"} [] fam = "C15" /\ Prop = "C02" -> {"C02_BoundToEffectiveAddress"}
                 [] fam = "C15" -> {"C15_ServedIffAdmitted", "C15_RefusedGetsNothing", "C15_NoBackendForUnserved", "C15_BackendSeesEffective", "C15_CookieBoundToEffective", "C15_LoginGetsCookie"}
                 [] fam = "C16" -> IF Prop = "C17" THEN {"C17_StopsDespiteHostile"} ELSE {"C16_GoodServedPromptly", "C16_GoodServedAfterQuiet"}
                 [] fam = "C17" -> {"C17_ReturnsAfterAllFinished", "C17_WithinTimeout", "C17_InFlightCompletes", "C17_LateNotServed", "C17_NotBeforeInFlight"}
